@@ -298,6 +298,12 @@ func cmdCheck(prop, tier string) int {
 			reproduced = true
 			n.Msg = "found in the clock model; the native run (wall clock) did not take this path: " + n.Kind + " " + n.Msg
 		}
+		if !reproduced && usesUnstableSort(c.pr.Model) {
+			// the path swaps two equal elements after a sort.Slice: allowed by the library contract, but the
+			// current runtime sorts short slices stably, so the native run cannot take it
+			reproduced = true
+			n.Msg = "found in the contract model of sort.Slice (the order of equal elements is unspecified); the native run did not take this path: " + n.Kind + " " + n.Msg
+		}
 		if !reproduced {
 			inconclusive = append(inconclusive, fmt.Sprintf("ENCODING-MISMATCH %s: candidate %s (%s) did not reproduce natively (native: %s %s)", c.harness, c.pr.Kind, trunc(c.pr.Msg, 300), n.Kind, trunc(n.Msg, 200)))
 			continue
@@ -410,4 +416,14 @@ func sourceHashes(fl []string) map[string]string {
 		}
 	}
 	return files
+}
+
+// usesUnstableSort: the counterexample took a tie swap of the sort.Slice contract model
+func usesUnstableSort(model map[string]string) bool {
+	for k, v := range model {
+		if strings.HasPrefix(k, "$unstable") && v != "0" && v != "" {
+			return true
+		}
+	}
+	return false
 }
